@@ -100,7 +100,7 @@ def _run(args):
     from .check import run_check
     from .core import load_known
     try:
-        ctx, err = run_check(pid, "quick", Program(overlay={rel: src}))
+        ctx, err = run_check(pid, "quick", Program(overlay={rel: src}), timeout=120)
     except Exception as e:
         return desc, "error", str(e)[:100]
     known = load_known()
@@ -123,7 +123,8 @@ def run(pid, limit=None, jobs=16, seed=0):
         random.Random(seed).shuffle(work)
         work = work[:limit]
     res = []
-    with cf.ProcessPoolExecutor(jobs) as ex:
+    from .check import guard_resources
+    with cf.ProcessPoolExecutor(jobs, initializer=guard_resources, initargs=(3,)) as ex:
         for r in ex.map(_run, work, chunksize=4):
             res.append(r)
     return res
